@@ -14,7 +14,9 @@ import (
 	rb "verifharness/ref/bech32"
 )
 
-func init() { core.Register(core.Check{ID: "C19", Level: "exploration", Run: runC19}) }
+func init() {
+	core.Register(core.Check{ID: "C19", Level: "exploration", Run: func(c *core.Ctx) { runC19(c); reentrancyPass(c, "C19") }})
+}
 
 var c19Known = map[string]address.Prefix{"iota": address.IOTAMainnet, "atoi": address.IOTADevnet, "smr": address.ShimmerMainnet, "rms": address.ShimmerDevnet}
 
